@@ -64,6 +64,7 @@ REQUIRED = [
     "class:reject:literal-out-of-range", "class:reject:unterminated-clause",
     "class:reject:clause-count-mismatch", "reader_accepted", "reader_refused_with_ValueError",
     "undecodable_bytes_refused", "literal_at_bound_accepted", "cli_reader_accepts", "cli_reader_refusals",
+    "big_texts", "history_exports",
 ]
 CASE_TIMEOUT = {"quick": 120, "thorough": 600}
 
@@ -1196,8 +1197,106 @@ def case_cli_texts(ctx, rseed, count):
 
 
 # ---------------------------------------------------------------------------
+# ---------------------------------------------------------------------------
+# large texts and export histories (added after round-2 seeded changes)
+# ---------------------------------------------------------------------------
+def case_big_texts(ctx, rseed):
+    """Texts well beyond 64 KiB (a reader that consumes its input in blocks must not glue or split tokens)."""
+    r = ctx.rng("c06big", rseed)
+    CNF = cnf_classes()[0] if isinstance(cnf_classes(), (list, tuple)) else list(cnf_classes().values())[0]
+    scratch_dir = tempfile.mkdtemp(prefix="c06big-")
+    try:
+        for rounds in range(3):
+            n = r.choice([99, 1200, 5000, 12345])
+            m = r.randint(9000, 16000)
+            clauses = [[r.choice([1, -1]) * r.randint(1, n) for _ in range(r.randint(1, 4))] for _ in range(m)]
+            # pad so that multiples of 65536 fall at varying places inside clause lines
+            lines = ["c %s" % ("x" * r.randint(0, 40)), "p cnf %d %d" % (n, m)] + [" ".join(map(str, c + [0])) for c in clauses]
+            text = "\n".join(lines) + "\n"
+            ctx.count("big_texts")
+            ctx.count("big_text_chars", len(text))
+            routes = [("stringio", lambda: ctx.call(CNF.from_file, io.StringIO(text)))]
+            path = os.path.join(scratch_dir, "big%d.cnf" % rounds)
+            with open(path, "w") as f:
+                f.write(text)
+            routes.append(("path", lambda: ctx.call(CNF.from_file, path)))
+            for route, run in routes:
+                st, F = run()
+                label = "a %d-character DIMACS text (%d variables, %d clauses) read through %s" % (len(text), n, m, route)
+                if st == "exc":
+                    ctx.violation("dimacs-reader:big-text:refused:%s" % type(F).__name__, "%s raised %r" % (label, F))
+                    continue
+                got = [list(c) for c in F]
+                if F.number_of_variables() != n or got != clauses:
+                    i = next((i for i, (a, b) in enumerate(zip(got, clauses)) if a != b), min(len(got), len(clauses)))
+                    ctx.violation("dimacs-reader:big-text:misread", "%s: %d variables, %d clauses; clause #%d read as %r, written as %r"
+                                  % (label, F.number_of_variables(), len(got), i, got[i:i + 1], clauses[i:i + 1]))
+                    continue
+                # and back: the writer's text of the large formula
+                out = F.to_dimacs()
+                st2, F2 = ctx.call(CNF.from_file, io.StringIO(out))
+                if st2 == "exc" or [list(c) for c in F2] != clauses or F2.number_of_variables() != n:
+                    ctx.violation("roundtrip:big-formula", "%s: writing and reading it again changes the formula" % label)
+                ctx.judged(("big-text", n, m, route, rseed, rounds), nontrivial=True,
+                           sample={"chars": len(text), "variables": n, "clauses": m, "route": route})
+    finally:
+        shutil.rmtree(scratch_dir, ignore_errors=True)
+
+
+def case_export_histories(ctx, rseed, count):
+    """One formula object exported several times with edits in between: every export must show the current state."""
+    r = ctx.rng("c06hist", rseed)
+    classes = cnf_classes()
+    classes = list(classes.values()) if isinstance(classes, dict) else list(classes)
+    for _ in range(count):
+        K = r.choice(classes)
+        F = K()
+        steps = []
+        for step in range(r.randint(3, 9)):
+            op = r.choice(["clause", "grow", "grow", "variable", "block", "header", "export", "export"])
+            n = F.number_of_variables()
+            if op == "clause":
+                top = n + r.choice([0, 0, 2])
+                F.add_clause([r.choice([1, -1]) * r.randint(1, top) for _ in range(r.randint(0, 3))] if top else [])
+            elif op == "grow":
+                F.update_variable_number(n + r.randint(1, 3))
+            elif op == "variable" and hasattr(F, "new_variable"):
+                F.new_variable("v%d" % step)
+            elif op == "block" and hasattr(F, "new_block"):
+                F.new_block(r.randint(1, 2), label="b_{}")
+            elif op == "header":
+                F.header["step %d" % step] = "edited"
+            steps.append(op)
+            want_n, want = F.number_of_variables(), [list(c) for c in F]
+            exports = [("to_dimacs", F.to_dimacs())]
+            buf = io.StringIO()
+            F.to_file(buf, fileformat="dimacs", export_header=bool(step % 2), export_varnames=bool(step % 3 == 0))
+            exports.append(("to_file", buf.getvalue()))
+            for how, text in exports:
+                ctx.count("history_exports")
+                try:
+                    got_n, got = ref.read(text)
+                except Exception as e:      # noqa: BLE001 - ref.Rejected
+                    ctx.violation("dimacs-writer:history:output-not-readable", "%s after %r: %r" % (how, steps, e))
+                    break
+                if got_n != want_n or [list(c) for c in got] != want:
+                    ctx.violation("dimacs-writer:history:export-shows-an-earlier-state",
+                                  "%s after %r says 'p cnf %d %d', the formula has %d variables and %d clauses"
+                                  % (how, steps, got_n, len(got), want_n, len(want)))
+                    break
+            else:
+                continue
+            break
+        ctx.judged(("export-history", K.__name__, tuple(steps), rseed), nontrivial=True,
+                   sample={"class": K.__name__, "history": steps})
+
+
 def _workload(tier, seed):
     q = tier == "quick"
+    for b in range(2 if q else 12):
+        yield "big_texts", {"rseed": seed * 1000 + b}
+    for b in range(4 if q else 60):
+        yield "export_histories", {"rseed": seed * 1000 + b, "count": 60}
     # writer / round trip
     for mode, batches in (("plain", 4 if q else 60), ("unusual", 12 if q else 240), ("breaks", 4 if q else 40)):
         for b in range(batches):
